@@ -34,7 +34,9 @@ theorem C04_main (w : World) (id : ConnIdent) (req : Req) (ts : TunnelState) (hw
     rw [entitled_of_passed hwf hc ha hm]; rfl
 
 /-- **C04, tunnel state changing during the request.**  `late` is whatever bridge or waiting route appears
-(for any mapping, on this or another node) while a request that found nothing at arrival is polling.  The
+(for any mapping, on this or another node) while a request that found nothing at arrival is polling, or —
+`.window` — the bridge registered between the dispatcher's own look-up and the second look-up of
+`handleTargetBridge` / the insert-if-absent of `startSourceBridge`.  The
 acknowledgement obeys `holds` for the state at arrival, and the connection is attached to the tunnel that
 appeared — or receives bytes from it — only if it is entitled to THAT tunnel's mapping. -/
 theorem C04_main_dyn (w : World) (id : ConnIdent) (req : Req) (ts : TunnelState) (late : Late)
@@ -57,7 +59,7 @@ theorem C04_main_dyn (w : World) (id : ConnIdent) (req : Req) (ts : TunnelState)
       | route m n b =>
         rcases dyn_none_cases w id req (.route m n b) with h | h | h
         · exact absurd h hr
-        · rw [h]; simp [attachedTs, Outcome.obsDyn, he]
+        · rw [h]; simp [attachedTs, Outcome.obsDyn, handleSourceBridge, he]
         · rw [h]
           by_cases hat : (handleTargetBridge w req (.route m n b)).attach = .none
           · have hd : ((handleTargetBridge w req (.route m n b)).obsDyn .none (.route m n b)).data = false := by
@@ -72,6 +74,18 @@ theorem C04_main_dyn (w : World) (id : ConnIdent) (req : Req) (ts : TunnelState)
               split
               · split <;> simp
               · simp
+            simp [attachedTs, Outcome.obsDyn, hns, he']
+      | window m =>
+        rcases dyn_none_cases w id req (.window m) with h | h | h
+        · exact absurd h hr
+        · rw [h]; simp [attachedTs, Outcome.obsDyn, handleSourceBridge]
+        · rw [h]
+          by_cases hat : (handleTargetBridge w req (.window m)).attach = .none
+          · simp [Outcome.obsDyn, hat]
+          · have hmm := window_attach_mapping hat
+            have he' : entitledB w id req (.bridge m false) = true :=
+              entitled_of_passed hwf hc ha (by simpa [tunnelMappingID] using hmm)
+            have hns := window_attach_not_source w req m
             simp [attachedTs, Outcome.obsDyn, hns, he']
 
 /-- Attachment in a changing tunnel state: whatever the connection is attached to — the tunnel found at arrival,
@@ -313,5 +327,11 @@ example : openTunnelDyn wTwo targetOfF secretReqF .none (.route "M" "node-B" fal
 -- tree where `processCrossNodeForward` takes the local-bridge shortcut before comparing the mappings)
 example : holdsDyn wTwo targetOfF secretReqF .none (.route "M" "node-A" true) ⟨.ok, .target, true⟩ = false := by decide
 example : holdsDyn wTwo targetOfF secretReqF .none (.route "M" "node-A" true) ⟨.ok, .none, false⟩ = true := by decide
+
+-- a bridge registered in the window between the dispatcher's look-up and handleTargetBridge's look-up
+example : openTunnelDyn wTwo targetClient secretReq .none (.window "M") = ⟨.ok, .target, .switch⟩ := by decide
+example : openTunnelDyn wTwo targetOfF secretReqF .none (.window "M") = ⟨.ok, .none, .err⟩ := by decide
+example : openTunnelDyn wTwo listenClient midReq .none (.window "F") = ⟨.ok, .none, .err⟩ := by decide
+example : holdsDyn wTwo targetOfF secretReqF .none (.window "M") ⟨.ok, .target, true⟩ = false := by decide
 
 end Tunnox.C04
